@@ -279,6 +279,14 @@ def run_other(ctx, n):
             for k, v in files.items():
                 with open(os.path.join(d, k), "wb") as f:
                     f.write(v)
+            # a tracked sub-directory (and one nested in it) whose entries carry tree hashes in the old index
+            sub_files = {("sub", "x"): b"ex", ("sub", "y"): b"why\n", ("sub", "deep", "z"): b"zed"}
+            if rng.random() < 0.3:
+                del sub_files[("sub", "deep", "z")]
+            for k, v in sub_files.items():
+                os.makedirs(os.path.join(d, *k[:-1]), exist_ok=True)
+                with open(os.path.join(d, *k), "wb") as f:
+                    f.write(v)
             case = {"other": i}
             ctx.case(case)
             # staging with one algorithm, then asking for another one through the same state
@@ -292,7 +300,31 @@ def run_other(ctx, n):
             ctx.count("cross_algorithm")
             # index level: md5() then edits then update()
             old = imd5(ibuild(d, fs), state=st)
+            from dvc_data.index.save import build_tree as ibuild_tree
+            dir_hashed = rng.random() < 0.8
+            if dir_hashed:
+                for dk, de in list(old.iteritems()):
+                    if de.meta and de.meta.isdir:
+                        de.hash_info = ibuild_tree(old, dk)[1].hash_info
             edits = {}
+            for kk in sorted(sub_files):
+                r = rng.random()
+                pp = os.path.join(d, *kk)
+                if r < 0.3:
+                    # rewritten in place: same inode, the directory's own stat record does not change
+                    new = sub_files[kk] + b"+" * rng.randint(1, 3)
+                    with open(pp, "r+b") as f:
+                        f.write(new)
+                    edits["/".join(kk)] = "rewrite_in_place"
+                    sub_files[kk] = new
+                elif r < 0.4:
+                    stt = os.stat(pp)
+                    new = bytes((c + 1) % 256 for c in sub_files[kk])
+                    with open(pp, "r+b") as f:
+                        f.write(new)
+                    os.utime(pp, ns=(stt.st_atime_ns, stt.st_mtime_ns + 7_000_000))
+                    edits["/".join(kk)] = "rewrite_in_place_same_size"
+                    sub_files[kk] = new
             for kk in list(files):
                 r = rng.random()
                 pp = os.path.join(d, kk)
@@ -313,13 +345,44 @@ def run_other(ctx, n):
                     edits[kk] = "rewrite"
                     files[kk] = new
             new_idx = ibuild(d, fs)
+            from .c03 import hi_to_json, meta_to_json
+
+            def _mj(m):
+                j = meta_to_json(m)
+                if j is not None and m.mtime is not None:
+                    j["mtime"] = int(round(m.mtime * 1e6))  # the stamps differ by >= 1 ms whenever they differ
+                return j
+
+            def _ij(idx):
+                return [{"key": list(k), "meta": _mj(e.meta), "hi": hi_to_json(e.hash_info), "loaded": e.loaded} for k, e in idx.iteritems()]
+
+            def _hv(h):
+                return [h.get("name"), h.get("value")] if h and h.get("value") else None
+
+            ask = {"op": "index_update", "old": _ij(old), "new": _ij(new_idx)}
             kind, _ = safe_call(lambda: update(new_idx, old))
+            ans = ctx.driver.ask(ask)
+            ctx.corr("IndexUpdate.update~index.update() (hash of every entry afterwards)", {**case, "edits": edits, "ask": ask},
+                     sorted([list(k), _hv(hi_to_json(e.hash_info))] for k, e in new_idx.iteritems()) if kind == "ok" else {"err": kind},
+                     sorted([e["key"], _hv(e["entry"].get("hi"))] for e in ans.get("entries", [])) if "entries" in ans else ans)
             for kk in files:
                 e = new_idx.get((kk,))
                 if e is not None and e.hash_info is not None and e.hash_info.value:
                     ctx.oracle(e.hash_info.value == digest(e.hash_info.name, files[kk]), {**case, "edits": edits},
                                {"why": "update() carried a stale hash over", "file": kk, "edit": edits.get(kk), "hash": str(e.hash_info)})
-            ctx.count("index_update")
+            # a directory entry that came out of update() with a tree hash: that is the identifier of the listing of the
+            # files below it now
+            for dk, de in (list(new_idx.iteritems()) if kind == "ok" else []):
+                if not (de.meta and de.meta.isdir and de.hash_info is not None and de.hash_info.value):
+                    continue
+                below = sorted((k[len(dk):], v) for k, v in sub_files.items() if k[:len(dk)] == dk)
+                listing = [{"md5": digest("md5", v), "relpath": "/".join(k)} for k, v in below]
+                want = digest("md5", json.dumps(listing, sort_keys=True).encode()) + ".dir"
+                ctx.oracle(de.hash_info.value == want, {**case, "edits": edits},
+                           {"why": "update() carried a directory's tree hash over although a file below it was rewritten",
+                            "dir": "/".join(dk), "edits": edits, "hash": str(de.hash_info), "listing_now": want})
+                ctx.count("index_update:dir hash carried" + (" (something below edited)" if any(e.startswith("/".join(dk) + "/") for e in edits) else ""))
+            ctx.count("index_update" + (":dirs hashed" if dir_hashed else ""))
             # a non-local filesystem never gets (or leaves) an entry
             mem = MemoryFileSystem()
             mp = "memory://c13-%d-%d" % (ctx.seed, i)
